@@ -101,6 +101,7 @@ pub struct St {
     in_cycle: Option<usize>,
     pub cycles: u32,
     collector_sleeps: u32,
+    no_yield: Option<usize>,
     pct_changes: Vec<u64>,
     op_done: Vec<bool>,
     /// receivers in registration order: owner tid
@@ -409,7 +410,7 @@ fn h_point(kind: u32, a: u64, b: u64) {
         hard_stop(st);
     }
     let yields = kind >= 100 && kind == K_YIELD || (kind < 32 && (st.cfg.yield_mask >> kind) & 1 == 1);
-    if yields {
+    if yields && st.no_yield != Some(me) {
         switch_from(st, me, kind);
     }
 }
@@ -628,6 +629,7 @@ fn h_unix() -> u64 {
 
 static RAND_CTR: std::sync::atomic::AtomicU64 = std::sync::atomic::AtomicU64::new(0);
 static RAND_KEY: std::sync::atomic::AtomicU64 = std::sync::atomic::AtomicU64::new(0);
+static RAND_ADJ: std::sync::atomic::AtomicBool = std::sync::atomic::AtomicBool::new(false);
 
 /// bijective mix of a per-run counter: pairwise distinct id prefixes inside a run (DESIGN 2.2)
 fn h_random() -> u64 {
@@ -635,7 +637,9 @@ fn h_random() -> u64 {
     let c = RAND_CTR.fetch_add(1, SeqCst) + 1;
     let key = RAND_KEY.load(SeqCst) | 1;
     // odd multiplier = bijection on u64; low 32 bits are a bijection of the low 32 bits of c
-    let lo = (c as u32).wrapping_mul(key as u32 | 1).wrapping_add((key >> 32) as u32);
+    // (adjacent mode: consecutive prefixes, still pairwise distinct)
+    let mul = if RAND_ADJ.load(SeqCst) { 1 } else { key as u32 | 1 };
+    let lo = (c as u32).wrapping_mul(mul).wrapping_add((key >> 32) as u32);
     let hi = (mix(c ^ key) >> 32) as u32;
     ((hi as u64) << 32) | lo as u64
 }
@@ -697,6 +701,13 @@ pub fn sleep_ns(ns: u64) {
 }
 
 /// advance the simulated clock without blocking (a long computation on the calling thread)
+/// the calling thread is not pre-empted at hook points until this is switched off again
+pub fn no_yield(on: bool) {
+    let mut st = lock_st();
+    let me = st.me();
+    st.no_yield = if on { Some(me) } else { None };
+}
+
 pub fn advance_ns(ns: u64) {
     let mut st = lock_st();
     st.clock += ns;
@@ -784,6 +795,7 @@ pub fn run(cfg: SchedCfg, main: Box<dyn FnOnce() + Send + 'static>) -> RunOut {
     fv::reset();
     RAND_CTR.store(0, SeqCst);
     RAND_KEY.store(mix(cfg.seed ^ 0xabcdef), SeqCst);
+    RAND_ADJ.store(cfg.adjacent_ids, SeqCst);
     {
         let mut g = match sim().m.lock() {
             Ok(g) => g,
@@ -820,6 +832,7 @@ pub fn run(cfg: SchedCfg, main: Box<dyn FnOnce() + Send + 'static>) -> RunOut {
             in_cycle: None,
             cycles: 0,
             collector_sleeps: 0,
+            no_yield: None,
             pct_changes,
             op_done: vec![],
             rx_owner: vec![],
